@@ -191,6 +191,10 @@ var externalDynamic = map[string]string{
 	"NetConn$2|dyn":                                       "context.CancelFunc",
 	"netConn.Close|dyn":                                   "context.CancelFunc",
 	"getFlateReader|invoke flate.Resetter.Reset":          "compress/flate",
+	"dial$1$1|invoke io.ReadCloser.Close":                 "HTTP response body",
+	"dial$1|invoke io.ReadCloser.Close":                   "HTTP response body",
+	"netConn.LocalAddr|invoke net.Conn.LocalAddr":         "the transport, when it is a net.Conn",
+	"netConn.RemoteAddr|invoke net.Conn.RemoteAddr":       "the transport, when it is a net.Conn",
 }
 
 // reentry: calls to standard-library functions that call back into the library synchronously.
